@@ -176,6 +176,10 @@ def _setter(tok, start):
         "RCOV": partial(pm.remove_covariate_effect, parameter=par, covariate=cov),
         "IOV": partial(pm.add_iov, occ="FA1", list_of_parameters=["CL"]),
         "RIOV": pm.remove_iov,
+        "CE": pm.set_combined_error_model,
+        "RUV1": partial(pm.set_iiv_on_ruv, same_eta=True),
+        "RUV2": partial(pm.set_iiv_on_ruv, same_eta=False),
+        "RRV": lambda m: pm.remove_iiv(m, [sorted(n for n in m.random_variables.etas.names if n.startswith("ETA_RV"))[-1]]),
         "RCL": partial(pm.remove_covariate_effect, parameter="CL", covariate="WGT"),
         "RV": partial(pm.remove_covariate_effect, parameter="V", covariate="WGT"),
         "FIX": lambda m: pm.fix_parameters(m, [next(p.name for p in m.parameters if p.name not in m.random_variables.parameter_names)]),
@@ -282,7 +286,7 @@ def probe_envs(cs, seed, k=2):
             if n.startswith("THETA("):
                 env[n] = list(th[(int(n[6:-1]) - 1) % len(th)])
             elif n.startswith("ETA("):
-                env[n] = [rng.choice([-1, 0, 1, 2]), 1]
+                env[n] = [rng.choice([-1, 1, 2]), 1]     # non-zero: eta x eps interaction terms must show
             elif n.startswith("EPS("):
                 env[n] = list(rng.choice([(3, 1), (-1, 1), (1, 2), (2, 1)]))
             elif n == "DVID":
@@ -290,7 +294,7 @@ def probe_envs(cs, seed, k=2):
             elif n in ("NEWIND", "ICALL"):
                 env[n] = [2, 1]
             elif n == "AMT":
-                env[n] = list(rng.choice([(0, 1), (25, 1)]))
+                env[n] = list(rng.choice([(25, 1), (7, 2), (100, 1)]))   # a dose record (pheno's BTIME is only set there)
             elif "(" in n:
                 raise FE.Unsupported(f"reads {n}")
             else:
@@ -686,6 +690,7 @@ def analyse(model, cid, seed, tag):
         res["advan"], res["trans"] = cs["advan"], cs["trans"]
         case = build_case(cid, cs, model, seed)
     except UndefinedVariable as e:
+        res["undefined"] = str(e)
         res["violations"].append(("undefined_variable", f"the generated code reads {e}, which it never assigns and $INPUT does not declare"))
         return res
     except FE.Unsupported as e:
@@ -862,7 +867,7 @@ def run_history(arg):
             m = m2
         res["from_advan"] = prev_advan
         a = analyse(m, idx, seed, "after")
-        res.update({k: a.get(k) for k in ("case", "skip", "model_side", "omega_case", "rvs", "advan", "trans", "notes", "code", "model_f_scale", "code_scales", "scale_consistent", "stale_output_rate_name")})
+        res.update({k: a.get(k) for k in ("case", "skip", "model_side", "omega_case", "rvs", "advan", "trans", "notes", "code", "model_f_scale", "code_scales", "scale_consistent", "stale_output_rate_name", "undefined")})
         res["violations"].extend(a["violations"])
         try:
             from . import c08_features as F8
@@ -914,7 +919,7 @@ def plan_histories(states, rng, n_edges, n_walks, walk_len, row_depth=2, per_sta
     table = {_key(s["state"]["vec"]): s for s in states}
     starts = {}
     # start vectors as CodeGen.StartState defines them
-    base = dict(elim="FO", tr=0, lag=False, bio=False, metab=False, zoin=False, edit=0, iov=0, rcov=False)
+    base = dict(elim="FO", tr=0, lag=False, bio=False, metab=False, zoin=False, script=0, rcov=False)
     starts["pheno_real"] = dict(base, abs="INST", periph=0, depot=False, trans=2)
     starts["pheno_block"] = dict(base, abs="INST", periph=0, depot=False, trans=2)
     starts["mox2"] = dict(base, abs="FO", periph=0, depot=True, trans=2)
@@ -951,8 +956,10 @@ def plan_histories(states, rng, n_edges, n_walks, walk_len, row_depth=2, per_sta
         rng.shuffle(deeper)
         # every token of the alphabet by its shortest history (the scripted edit chains COV-CAT-RCOV, IOV-RIOV included)
         for e in sorted(edges, key=lambda x: len(path[x[0]])):
-            if e[1] not in seen_tok:
-                seen_tok.add(e[1])
+            edit_tok = e[1] in ("COV", "CAT", "RCOV", "IOV", "RIOV", "CE", "RUV1", "RUV2", "RRV")
+            k = (e[1], table[e[0]]["state"]["vec"]["script"] if edit_tok else -1)   # edit tokens: from every stage they apply to
+            if k not in seen_tok:
+                seen_tok.add(k)
                 chosen.append(e)
         for e in sorted(deeper, key=lambda x: len(path[x[0]])):
             a0, a1 = table[e[0]]["state"], table[e[2]]["state"]
@@ -1148,6 +1155,7 @@ def compare_case(r, recs):
             if not _same(pf, gf):
                 f_bad = True
                 oc = r["case"].get("obscmt") or 0
+                r["cmt_collapsed"] = bool(oc and oc == (r["case"].get("dosecmt") or 0))
                 r["obs_cmt_stale"] = bool(oc and ode is not None and (ode.get("names") or {}).get("CENTRAL") not in (None, oc))
                 out.append(("f_value", f"F: the code means {_fr(pf)} (observation compartment {adv['obs'] if isinstance(adv, dict) else '?'}), the model {_fr(gf)}"))
         for name, p in sorted(final.items()):
@@ -1243,7 +1251,7 @@ def _record(r, outcome, detail, table_states=None):
             "advan": r.get("advan"), "trans": r.get("trans"), "from_advan": r.get("from_advan"), "detail": detail,
             "vec": r.get("vec"), "missing": r.get("missing"), "model_f_scale": r.get("model_f_scale"),
             "scale_consistent": r.get("scale_consistent"), "stale_output_rate_name": r.get("stale_output_rate_name"), "bio_class": r.get("bio_class"), "lag_class": r.get("lag_class"),
-            "dose_code": r.get("dose_code"), "dose_model": r.get("dose_model"), "dose_on_central": r.get("dose_on_central"), "obs_cmt_stale": r.get("obs_cmt_stale"),
+            "dose_code": r.get("dose_code"), "dose_model": r.get("dose_model"), "dose_on_central": r.get("dose_on_central"), "obs_cmt_stale": r.get("obs_cmt_stale"), "cmt_collapsed": r.get("cmt_collapsed"), "undefined": r.get("undefined"),
             "code_scales": "+".join(r.get("code_scales") or []), "code": r.get("code")}
 
 
